@@ -200,7 +200,40 @@ class Normaliser:
             else:
                 lets.append({'k': 'let', 'pat': p, 'init': a, 'l': call_node.get('l')})
         self.expanded.setdefault(helper, set()).add(owner)
+        body = self.fold(body)
         return {'k': 'block', 'stmts': lets, 'expr': body, 't': call_node.get('t'), 'l': call_node.get('l'), 'inl': helper}
+
+    def fold(self, node):
+        """after substitution a selector parameter is a constant: `match Kind::A { Kind::A => x, Kind::B => y }` is `x`, and
+        `if true { x } else { y }` is `x` (the merged helper reads like the function it was extracted from)"""
+        if isinstance(node, list):
+            return [self.fold(x) for x in node]
+        if not isinstance(node, dict):
+            return node
+        node = {k: (self.fold(v) if isinstance(v, (dict, list)) else v) for k, v in node.items()}
+        if node.get('k') == 'match' and not any(x in (node.get('src') or '') for x in ('TryDesugar', 'ForLoopDesugar')):
+            sc = peel(node.get('scrut', {}))
+            if sc.get('k') == 'path' and (sc.get('res') or '').startswith('Ctor') and 'Fn' not in (sc.get('res') or ''):
+                for arm in node.get('arms', []):
+                    pat = arm.get('pat', {})
+                    pp = pat.get('path') or (pat.get('e') or {}).get('path')
+                    if arm.get('guard') is not None:
+                        break
+                    if pat.get('k') in ('p_path', 'p_expr') and pp:
+                        if pp == sc.get('path'):
+                            return arm['body']
+                        continue
+                    if pat.get('k') == 'p_wild':
+                        return arm['body']
+                    break
+        if node.get('k') == 'if':
+            c = peel(node.get('cond', {}))
+            if c.get('k') == 'lit' and c.get('lk') == 'bool':
+                if c.get('v') is True or c.get('v') == 'true':
+                    return node['then']
+                if 'else' in node:
+                    return node['else']
+        return node
 
     def eta(self, helper, path_node, owner):
         params, body = self.fresh_copy(helper)
